@@ -89,7 +89,8 @@ def timeout_cases(rng, n):
         cases.append({"id": "t%d" % i, "seed": rng.randint(0, 10 ** 9), "calls": calls, "max_events": 80,
                       "stall_after": rng.choice([0, 1, 1, 2, 2, 3]), "p_close": 0.0, "p_call2": 0.0, "bsizes": [1, 2],
                       "managed": rng.random() < 0.5, "p_blocked_pull": 1.0, "cb_after_start": True,
-                      "policy": "pull_first" if rng.random() < 0.7 else None})
+                      "policy": "pull_first" if rng.random() < 0.7 else None,
+                      "sleep_before_first_pull": 2.4 if (tmo and i % 3 == 0) else None})
     return cases
 
 
@@ -212,8 +213,12 @@ def compare(run, model):
     for k, (ev, ro, rs, m) in enumerate(zip(run["events"], run["obs"], run["snaps"], model)):
         robs = [real_obs_code(o) for o in ro]
         if ev[0] != "timeout" and [2, 2, 0] in robs and [2, 2, 0] not in m["obs"]:
-            # the wall clock ran past `timeout` outside a timeout event (slow machine): not comparable
-            return {"kind": "inconclusive", "index": k, "event": ev, "detail": "spontaneous TimeoutError"}
+            # the wall clock ran past `timeout` outside a timeout event (slow machine): not comparable -- provided the
+            # caller really had been waiting that long
+            tmo_now = next((e2[7] for e2 in reversed(run["events"][:k + 1]) if e2[0] == "call"), None)
+            waited = rs.get("timeout_elapsed")
+            if not (tmo_now and waited is not None and waited < 0.75 * tmo_now):
+                return {"kind": "inconclusive", "index": k, "event": ev, "detail": "spontaneous TimeoutError"}
         if robs != m["obs"]:
             late = (robs == [] and m["obs"] != [])
             return {"kind": "late" if late else "obs", "index": k, "event": ev, "real": robs, "model": m["obs"]}
@@ -318,6 +323,12 @@ def oracle(run, profile_all=True):
                     bad.append(("C04", "backend.terminate() called inside a with block"))
         if tmo is not None:
             for e, obs_k, sn in zip(c["events"], [run["obs"][c["start"] + i] for i in range(len(c["events"]))], c["snaps"]):
+                if any(o[:2] == ["raised", "timeout"] for o in obs_k) and tmo and \
+                        sn.get("timeout_elapsed") is not None and sn["timeout_elapsed"] < 0.75 * tmo:
+                    for tag in ("C04", "C01"):
+                        bad.append((tag, "TimeoutError after the caller had waited only %.2f s for the result (timeout=%s s): the "
+                                         "time a batch spent dispatched before anybody waited for it was counted, the call lost "
+                                         "its results" % (sn["timeout_elapsed"], tmo)))
                 if e[0] == "timeout" and not any(o[0] == "raised" for o in obs_k) and sn.get("pending_pull"):
                     bad.append(("C04", "the caller waited 8 s (timeout=%s s) for a batch that never completes and no "
                                        "TimeoutError was raised" % tmo))
@@ -537,6 +548,9 @@ def standard_run(ctx, prop, profile):
     if not quick:
         n *= 10
     extra = timeout_cases(ctx.rng, 16 if quick else 80) if profile == "c04" else []
+    if profile == "c01":
+        # a generous `timeout` must not change the results: batches that are old when the caller starts to wait
+        extra = [dict(c, stall_after=None) for c in timeout_cases(ctx.rng, 9 if quick else 30) if c.get("sleep_before_first_pull")]
     res = correspondence(ctx, profile, n, extra)
     mine = [(c, r, o) for c, r, o in res["oracle_failures"] if o[0] in (prop, "ALL")]
     others = [(c, r, o) for c, r, o in res["oracle_failures"] if o[0] not in (prop, "ALL")]
@@ -676,6 +690,10 @@ def judge_real(c, r):
             elif sorted(execd) != exp:
                 bad.append(("C01", "real backend %s: executed %s" % (c["backend"], sorted(execd))))
         else:
+            if c.get("slow") and k == 0 and (call.get("latency") or 0) > 5.0:
+                bad.append(("C04", "real backend %s%s: the call raised only %.1f s after its task failed: it waited for the other "
+                                   "dispatched tasks (%.0f s each) instead of stopping them" % (
+                                       c["backend"], " inside a with block" if c.get("with_block") else "", call["latency"], c["slow"])))
             name, args = call["raised"]
             if tf and jf is None:
                 want = c.get("exc", "TaskFail")
@@ -702,6 +720,9 @@ def fixed_real_cases():
     out.append(dict(base, backend="multiprocessing", n_jobs=2, init=5, with_block=True))
     out.append(dict(base, backend="multiprocessing", n_jobs=3, init=6, with_block=True, ifail=4, tfail=[], return_as="list"))
     out.append(dict(base, backend="threading", n_jobs=2, with_block=True, return_as="generator", exc="KeyboardInterrupt"))
+    # a task fails while other tasks of the call are still running (8 s): the call must raise without waiting for them
+    for backend, managed in (("loky", True), ("loky", False), ("multiprocessing", True), ("threading", True)):
+        out.append(dict(base, backend=backend, n_jobs=3, N=6, tfail=[0], with_block=managed, slow=8.0, batch_size=1))
     for backend, nj in (("sequential", 1), ("threading", 1), ("threading", 2), ("loky", 2)):
         for how, npull in (("close", 0), ("drop", 0), ("close", 2)):
             out.append(dict(base, backend=backend, n_jobs=nj, tfail=[], return_as="generator", abandon=[how, npull]))
@@ -729,6 +750,17 @@ def real_sampling(ctx, quick, prop, fail_rate):
                 got = []
             if not got:
                 got = [{"harness_error": "inconclusive (timeout or crash of the sampling process)", "inconclusive": True}]
+            last = got[-1]
+            slow_fail = any((cl.get("latency") or 0) > 5.0 for cl in last.get("calls", []))
+            if slow_fail and not last.get("hang"):
+                # the failure surfaced late: confirm on a second run before it counts
+                try:
+                    rc, out, err = common.run_impl("m1_real.py", input_text=json.dumps(todo[len(got) - 1]) + "\n", timeout=400)
+                    again = [json.loads(l) for l in out.splitlines() if l.startswith("{")]
+                except subprocess.TimeoutExpired:
+                    again = []
+                if again and not any((cl.get("latency") or 0) > 5.0 for cl in again[-1].get("calls", [])):
+                    got[-1] = again[-1]
             if got[-1].get("hang"):
                 try:
                     rc, out, err = common.run_impl("m1_real.py", input_text=json.dumps(dict(todo[len(got) - 1], watchdog=150)) + "\n", timeout=400)
@@ -896,6 +928,13 @@ def stall_probe(ctx, quick, prop):
             scs = STALL_SCENARIOS if (critical or not quick) else [rng.choice(STALL_SCENARIOS)]
             for sc in scs:
                 cases.append(dict(sc, at=at, role=role, hits=list(range(1, 11)), delay=0.025, watchdog=40))
+            # a backend whose completion callbacks run concurrently (third-party style, on concurrent.futures): the
+            # dispatch path of the callbacks is where two of them can meet
+            if role == "cb" and at[0].split(".")[-1] in ("_dispatch_new", "dispatch_next", "dispatch_one_batch", "_dispatch",
+                                                          "_register_outcome", "_retrieve_result", "__call__"):
+                for sc in (STALL_SCENARIOS[0], STALL_SCENARIOS[1], STALL_SCENARIOS[3]) if (critical or not quick) else (STALL_SCENARIOS[1],):
+                    cases.append(dict(sc, backend="cf", pre=1 if sc["pre"] == "n_jobs" else sc["pre"], N=max(sc["N"], 9),
+                                      at=at, role=role, hits=list(range(1, 11)), delay=0.025, watchdog=40))
     nproc = max(1, min(common.NCPU - 2, 12))
     chunks = [cases[i::nproc] for i in range(nproc)]
     script = os.path.join(common.ROOT, "harness", "impl", "m1_stall.py")
@@ -946,7 +985,8 @@ def stall_probe(ctx, quick, prop):
                         what = what or "call %d: the input failed but the call gave %s / raised %s" % (k + 1, call["values"], call["raised"])
             if what and prop in tags and nv < 2:
                 nv += 1
-                ctx.violation("threading backend, %s thread stalled %d ms before %s line %d: %s" % (
+                ctx.violation("%s backend, %s thread stalled %d ms before %s line %d: %s" % (
+                    "concurrent-callback (concurrent.futures)" if c.get("backend") == "cf" else "threading",
                     "callback/worker" if c["role"] == "cb" else "caller", int(c["delay"] * 1000), c["at"][0], c["at"][1], what),
                     {"kind": "stall-probe", "case": c, "result": r}, True)
     return {"stall_points": len(pts), "stall_cases": len(cases), "stall_cases_that_reached_their_line": visited,
